@@ -21,7 +21,9 @@ func Check() *engine.Check {
 			"statement's table and with each other. (b) assembled decision, proxy and Envoy gRPC (bufconn) services built by their real constructors over " +
 			"real rules (real rule factory, repository, executor; scripted regular steps) whose authenticator/authorizer/contextualizer/finalizer fails " +
 			"with the enumerated error, with error pipeline none / real default / real redirect (302 templated, 301) / real www_authenticate " +
-			"(default, configured, rule-level realm), and the request no rule matches; x 3 override sets x verbose x Accept. " +
+			"(default, configured, rule-level realm), and the request no rule matches; x 3 override sets x verbose x Accept. (c) the challenge the real " +
+			"www_authenticate handler records (the services drop it, known finding): 3 prototype realms x 3 rule-level realms x every sequence of up to 2 " +
+			"other members of the family derived and executed before. " +
 			"A translator case is non-trivial when the kind cannot be read off the outermost value (>= 2 chain elements or a wrapper); " +
 			"every assembled case is non-trivial (a real pipeline failed and crossed the whole translation path). Cases are enumerated once, so distinct = counted.",
 		Assumptions: []string{
@@ -50,6 +52,7 @@ func run(c *engine.Ctx) {
 
 	runIso(c, &work)
 	runAsm(c, &work)
+	runHandlers(c, &work)
 }
 
 func replay(c *engine.Ctx, raw json.RawMessage) {
@@ -130,6 +133,15 @@ func replay(c *engine.Ctx, raw json.RawMessage) {
 		fmt.Printf("replay: pipeline=%s failing_step=%s error=%s overrides=%+v verbose=%v accept=%q steps=%v\n  decision: %+v\n  proxy:    %+v\n  envoy:    %+v\n",
 			h.Name, ac.Step, ac.Err, ac.Opts, ac.Verbose, a.Value, tr, d, p, en)
 		evalAsm(c, tally{}, s, h, ac.Step, ac.Err, e, ac.Opts, ac.Verbose, a)
+	case "handlers":
+		var hc HandlerCase
+		if err := json.Unmarshal(raw, &hc); err != nil {
+			c.Infra("bad replay: %v", err)
+
+			return
+		}
+
+		evalHandlerCase(c, &hc)
 	default:
 		c.Infra("unknown part %q", probe.Part)
 	}
